@@ -1,4 +1,5 @@
 #![recursion_limit = "512"]
+mod c03;
 mod c11;
 mod c14;
 mod c14seg;
@@ -12,6 +13,7 @@ mod zoo;
 fn main() {
     let args = util::parse_args();
     match args.cmd.as_str() {
+        "c03" => c03::run(&args),
         "c11" => c11::run(&args),
         "c14" => c14::run(&args),
         "thermo" => thermo::run(&args),
